@@ -44,6 +44,9 @@ type c02Scn struct {
 	horizon   int64
 	actions   []c02Action
 	reschedAt int64 // if >0: at this instant, after everything, the name must be schedulable again
+	extra     []string // further one-off jobs scheduled for T before the actions start
+	bound     [2]int   // bounds (quick, thorough) when the defaults (2, unbounded) are too wide
+	deviation bool     // count every non-default scheduling choice (scenarios with more than four goroutines)
 }
 
 type c02State struct {
@@ -58,6 +61,7 @@ type c02State struct {
 	existsEnd bool
 	listEnd   []string
 	runs2     int // runs of a job scheduled by a "sched" action
+	runsX     map[string]int // runs of the extra jobs
 }
 
 func c02Units(tier string) []hx.Unit {
@@ -108,6 +112,11 @@ func c02Units(tier string) []hx.Unit {
 	// S7: CancelJobs(prefix) with concurrent scheduling
 	scns = append(scns, c02Scn{name: "S7/cancelall@-2,sched2@-2", T: T, actions: []c02Action{{at: T - 2*sec, kind: "cancelall", name: "J"}, {at: T - 2*sec, kind: "sched", name: "J2"}}})
 	scns = append(scns, c02Scn{name: "S7/cancelall@+0,run@+0", T: T, actions: []c02Action{{at: T, kind: "cancelall", name: "J"}, {at: T, kind: "run", name: "J"}}})
+	// S7b: CancelJobs(prefix) over three jobs while one of them is claimed by an early-run request
+	for _, victim := range []string{"J", "J2"} {
+		scns = append(scns, c02Scn{name: "S7b/3jobs/cancelall@-2,run(" + victim + ")@-2", T: T, extra: []string{"J2", "J3"}, bound: [2]int{2, 3}, deviation: true,
+			actions: []c02Action{{at: T - 2*sec, kind: "cancelall", name: "J"}, {at: T - 2*sec, kind: "run", name: victim}}})
+	}
 
 	var units []hx.Unit
 	for i := range scns {
@@ -116,11 +125,17 @@ func c02Units(tier string) []hx.Unit {
 			sc.horizon = sc.T + 8*sec
 		}
 		st := &c02State{}
-		u := hx.Unit{Name: "C02/" + sc.name, Cfg: mc.Config{Horizon: sc.horizon + 100*sec}}
+		u := hx.Unit{Name: "C02/" + sc.name, Cfg: mc.Config{Horizon: sc.horizon + 100*sec, Deviation: sc.deviation}}
 		if tier == "thorough" {
 			u.Bound, u.Prune = -1, true
+			if sc.bound[1] > 0 {
+				u.Bound, u.Prune = sc.bound[1], false
+			}
 		} else {
 			u.Bound = 2
+			if sc.bound[0] > 0 {
+				u.Bound = sc.bound[0]
+			}
 		}
 		u.Body = func() { c02Body(&sc, st) }
 		u.Check = func(r *mc.Result) mc.Verdict { return c02Check(&sc, st, r) }
@@ -158,6 +173,13 @@ func c02Body(sc *c02Scn, st *c02State) {
 		}, jobFn)
 	} else {
 		st.schedErr = svc.ScheduleJob(ctx, "class", "J", at(sc.T), jobFn)
+	}
+	st.runsX = map[string]int{}
+	for i, x := range sc.extra {
+		x := x
+		if err := svc.ScheduleJob(ctx, "class", x, at(sc.T+int64(i+1)*sec), func(_ context.Context) { st.runsX[x]++ }); err != nil {
+			panic(err)
+		}
 	}
 	for i := range st.acts {
 		a := &st.acts[i]
@@ -212,12 +234,15 @@ func c02Check(sc *c02Scn, st *c02State, r *mc.Result) mc.Verdict {
 		o = append(o, fmt.Sprintf("@%d", t/sec))
 	}
 	var runOK, cancelOK, ctxCancel, schedOK bool
+	var xRunOK []string // extra jobs for which RunJob reported success
 	var cancelAt, runAt int64 = -1, -1
 	for _, a := range st.acts {
 		o = append(o, fmt.Sprintf("%s=%v", a.kind, errStr(a.err)))
 		switch a.kind {
 		case "run":
-			if a.err == nil {
+			if a.err == nil && a.name != "J" {
+				xRunOK = append(xRunOK, a.name)
+			} else if a.err == nil {
 				runOK = true
 				runAt = a.at
 			}
@@ -240,6 +265,9 @@ func c02Check(sc *c02Scn, st *c02State, r *mc.Result) mc.Verdict {
 		o = append(o, fmt.Sprintf("resched=%v", errStr(st.resched)))
 	}
 	o = append(o, fmt.Sprintf("runs2=%d", st.runs2))
+	for _, x := range sc.extra {
+		o = append(o, fmt.Sprintf("%s:%d", x, st.runsX[x]))
+	}
 	v.Outcome = strings.Join(o, " ")
 	v.Nontrivial = r.SelTies > 0 || r.Touched > 2
 	v.Sample = sc.name + ": " + v.Outcome
@@ -283,6 +311,29 @@ func c02Check(sc *c02Scn, st *c02State, r *mc.Result) mc.Verdict {
 		}
 		if cancelled && !runOK && cancelAt <= sc.T-2*sec && n != 0 {
 			return fail("ran-after-cancel", "job cancelled clearly before its time still ran")
+		}
+		for _, x := range xRunOK {
+			if st.runsX[x] != 1 && !ctxCancel {
+				return fail("run-reported-success-but-dropped", fmt.Sprintf("RunJob(%s) reported success but the job ran %d times", x, st.runsX[x]))
+			}
+		}
+		for _, x := range sc.extra {
+			named, swept := false, false
+			for _, a := range st.acts {
+				if a.kind == "cancelall" && strings.HasPrefix(x, a.name) && a.at <= sc.T-2*sec {
+					swept = true
+				} else if a.name == x {
+					named = true
+				}
+			}
+			switch {
+			case st.runsX[x] > 1:
+				return fail("ran-twice", fmt.Sprintf("one-off job %s ran %d times", x, st.runsX[x]))
+			case swept && !named && st.runsX[x] != 0:
+				return fail("ran-after-cancel", fmt.Sprintf("job %s, cancelled with its prefix clearly before its time, still ran", x))
+			case !swept && !ctxCancel && st.runsX[x] != 1:
+				return fail("dropped", fmt.Sprintf("accepted one-off job %s, never cancelled, did not run", x))
+			}
 		}
 		if st.existsEnd && !schedOK {
 			return fail("finished-job-still-listed", "JobExists is true for a one-off job after its time")
